@@ -111,7 +111,9 @@ def _collect_from_tasks(session: Session) -> None:
     """Collect tasks from user provided tasks via the functional interface."""
     for raw_task in to_list(session.config.get("tasks", ())):
         if is_task_function(raw_task):
-            if not hasattr(raw_task, "pytask_meta"):
+            # Functions which only carry markers have metadata, but are not wrapped with
+            # the task decorator yet.
+            if not has_mark(raw_task, "task"):
                 raw_task = task_decorator()(raw_task)  # noqa: PLW2901
 
             path = get_file(raw_task)
